@@ -6,6 +6,7 @@ The statements are about every timestamp `t : Int` (seconds, any sign): no 28-ye
 -/
 import SideVerif.Proofs.Calendar
 import SideVerif.Gen.Compat
+import SideVerif.Layer.CompatStr
 namespace SideVerif
 open Cal
 
@@ -52,13 +53,6 @@ theorem C09_code_refuses_unsound (Q P : Gran) (h : refinesB P Q = false) : Gen.c
   cases hc : Gen.compat Q P
   · rfl
   · exact absurd (C09_compat_sound Q P hc) (refinesB_complete h)
-
-/-- `_is_granularity_compatible` on arbitrary strings: names outside the hierarchy are compatible
-only with themselves (identity roll-up). -/
-def compatStr (q p : String) : Bool :=
-  match Gran.ofStr? q, Gran.ofStr? p with
-  | some Q, some P => Gen.compat Q P
-  | _, _ => q == p
 
 theorem C09_unknown_names (q p : String) (hu : Gran.ofStr? q = none ∨ Gran.ofStr? p = none)
     (h : compatStr q p = true) : q = p := by
